@@ -80,7 +80,9 @@ pub struct S1 { a: u8, b: u64, s: String, v: Vec<u8>, o: Option<u32> }
 pub enum E1 { A, B(u16), C { x: String, y: Option<u8> } }
 #[derive(Clone, Debug, PartialEq, BorshSerialize, BorshDeserialize, SplDiscriminate, SplBorshVariableLenPack)]
 #[discriminator_hash_input("verif::g1")]
-pub struct G1<T: BorshSerialize + BorshDeserialize> { t: T, n: u32 }
+pub struct G1<T> where T: BorshSerialize + BorshDeserialize { t: T, n: u32 }
+// (generic items with inline bounds / const parameters are exercised in the macro-lab, where a
+// compile failure is attributed to the item instead of breaking the whole harness)
 
 fn bpack<V: VariableLenPack + BorshSerialize + PartialEq + std::fmt::Debug>(v: &V, slot: usize) -> (String, Option<String>) {
     let mut err = None;
